@@ -39,17 +39,28 @@ where
     .min(12);
   let chunk_size = (cases.len() + threads) / threads;
   thread::scope(|s| {
-    cases
+    #[cfg(ast_grep_verif)]
+    let mut verif_tokens = vec![];
+    let handles = cases
       .chunks(chunk_size)
       .map(|chunk| {
+        #[cfg(ast_grep_verif)]
+        let verif_token = crate::verif::pre_spawn("test-worker");
+        #[cfg(ast_grep_verif)]
+        verif_tokens.push(verif_token.id());
         s.spawn(move || {
+          #[cfg(ast_grep_verif)]
+          let _verif_guard = crate::verif::thread_guard(verif_token);
           chunk
             .iter()
             .filter_map(filter_mapper) // apply per case logic
             .collect::<Vec<_>>() // must collect here eagerly to consume iter in child threads
         })
       })
-      .collect::<Vec<_>>() // must collect here eagerly to enable multi thread
+      .collect::<Vec<_>>(); // must collect here eagerly to enable multi thread
+    #[cfg(ast_grep_verif)]
+    crate::verif::join_point(&verif_tokens);
+    handles
       .into_iter()
       .flat_map(|sc| sc.join().unwrap())
       .collect()
